@@ -19,3 +19,223 @@ Theorem C16_tables_agree_ref :
   junk = ref_junk /\ junk_lead = ref_junk_lead.
 Proof. exact tables_agree_ref_ok. Qed.
 Print Assumptions C16_tables_agree_ref.
+
+(* ======================================================================================
+   General theorems (Proofs/ClassifyProofs.v, ClassifyStructured.v, ClassifyInst.v).
+   [classify ... fuel uat a p] is the model of pathbuf_to_filetype_impl(p, uat, Some a),
+   [classify_top ... uat p] of path_to_filetype(p, uat); all are stated for the
+   regenerated tables.  (The generic versions take any tables with [tables_wf].)
+   ====================================================================================== *)
+From S4.Proofs Require Import ClassifyProofs ClassifyStructured ClassifyInst.
+From Coq Require Import String.
+Open Scope string_scope.  (* only for the literals in the examples *)
+Open Scope list_scope.
+Open Scope N_scope.
+
+(* 1. Classification terminates, without error, for EVERY byte string (empty, dots only,
+      invalid UTF-8, any length), from every container: fuel |p|+1 is always enough. *)
+Theorem C16_classify_total : forall (uat : bool) (a : fta) (p : bytes),
+  classify sfx_table name_table junk junk_lead (S (List.length p)) uat a p <> ROutOfFuel.
+Proof. exact inst_classify_total. Qed.
+Print Assumptions C16_classify_total.
+
+Theorem C16_classify_top_total : forall (uat : bool) (p : bytes),
+  classify_top sfx_table name_table junk junk_lead uat p <> ROutOfFuel.
+Proof. exact inst_classify_top_total. Qed.
+Print Assumptions C16_classify_top_total.
+
+(* more fuel never changes a result *)
+Theorem C16_classify_fuel_mono : forall (fuel k : nat) (uat : bool) (a : fta) (p : bytes) (r : result),
+  classify sfx_table name_table junk junk_lead fuel uat a p = r -> r <> ROutOfFuel ->
+  classify sfx_table name_table junk junk_lead (fuel + k) uat a p = r.
+Proof. exact inst_classify_fuel_mono. Qed.
+Print Assumptions C16_classify_fuel_mono.
+
+(* 2. The property as one theorem: on every structured name
+        pre ++ c0 ++ "." ++ c1 ++ ... ++ "." ++ ck ++ post
+      the classifier returns what the spec reads off the components from the right. *)
+(* 2a. domain of Spec/ClassifySpec.v: junk without dots on both sides, ASCII components *)
+Theorem C16_classify_structured : forall (uat : bool) (pre c0 : bytes) (comps : list bytes) (post : bytes),
+  wf_sname junk junk_lead pre c0 comps post = true ->
+  classify_top sfx_table name_table junk junk_lead uat (render pre c0 comps post)
+  = spec_classify sfx_table name_table uat c0 comps.
+Proof. exact inst_classify_structured. Qed.
+Print Assumptions C16_classify_structured.
+
+(* 2b. leading junk may contain dots, outside the class of known finding F6
+       (two or more leading junk characters the last of which is a dot) *)
+Theorem C16_classify_structured_wide : forall (uat : bool) (pre c0 : bytes) (comps : list bytes) (post : bytes),
+  wf_sname_wide junk junk_lead pre c0 comps post = true -> f6_pre pre = false ->
+  classify_top sfx_table name_table junk junk_lead uat (render pre c0 comps post)
+  = spec_classify sfx_table name_table uat c0 comps.
+Proof. exact inst_classify_structured_wide. Qed.
+Print Assumptions C16_classify_structured_wide.
+
+(* 2c. widest domain: components are any valid UTF-8 *)
+Theorem C16_classify_structured_u : forall (uat : bool) (pre c0 : bytes) (comps : list bytes) (post : bytes),
+  wf_sname_u junk junk_lead pre c0 comps post = true -> f6_pre pre = false ->
+  classify_top sfx_table name_table junk junk_lead uat (render pre c0 comps post)
+  = spec_classify sfx_table name_table uat c0 comps.
+Proof. exact inst_classify_structured_u. Qed.
+Print Assumptions C16_classify_structured_u.
+
+(* 2d. from every container and with every sufficient fuel *)
+Theorem C16_classify_structured_from :
+  forall (uat : bool) (a : fta) (fuel : nat) (pre c0 : bytes) (comps : list bytes) (post : bytes),
+  wf_sname_u junk junk_lead pre c0 comps post = true -> f6_pre pre = false ->
+  (List.length comps < fuel)%nat ->
+  classify sfx_table name_table junk junk_lead fuel uat a (render pre c0 comps post)
+  = spec_scan sfx_table name_table uat a c0 (rev comps).
+Proof. exact inst_classify_structured_from. Qed.
+Print Assumptions C16_classify_structured_from.
+
+Example C16_ex_structured :
+  wf_sname junk junk_lead (s2b "~") (s2b "SysLog") [s2b "LOG"; s2b "1"; s2b "GZ"] (s2b "~") = true /\
+  render (s2b "~") (s2b "SysLog") [s2b "LOG"; s2b "1"; s2b "GZ"] (s2b "~") = s2b "~SysLog.LOG.1.GZ~" /\
+  spec_classify sfx_table name_table true (s2b "SysLog") [s2b "LOG"; s2b "1"; s2b "GZ"] = RFile (Text Gz).
+Proof. exact ex_structured. Qed.
+Print Assumptions C16_ex_structured.
+
+Example C16_ex_structured_u :
+  wf_sname_u junk junk_lead (s2b ".-") (unhex "e697a5e69cac") [s2b "utmp"; s2b "xz"] [] = true /\
+  f6_pre (s2b ".-") = false /\
+  wf_sname_wide junk junk_lead (s2b ".-") (unhex "e697a5e69cac") [s2b "utmp"; s2b "xz"] [] = false /\
+  spec_classify sfx_table name_table false (unhex "e697a5e69cac") [s2b "utmp"; s2b "xz"] = RFile (Fixed Xz Utmp).
+Proof. exact ex_structured_u. Qed.
+Print Assumptions C16_ex_structured_u.
+
+(* 3a. upper/lower case never matters: names whose components agree up to ASCII case
+       (whatever their junk) classify equally *)
+Theorem C16_classify_case :
+  forall (uat : bool) (pre c0 : bytes) (comps : list bytes) (post pre' c0' : bytes) (comps' : list bytes) (post' : bytes),
+  wf_sname_u junk junk_lead pre c0 comps post = true -> f6_pre pre = false ->
+  wf_sname_u junk junk_lead pre' c0' comps' post' = true -> f6_pre pre' = false ->
+  lower_bytes c0 = lower_bytes c0' -> map lower_bytes comps = map lower_bytes comps' ->
+  classify_top sfx_table name_table junk junk_lead uat (render pre c0 comps post)
+  = classify_top sfx_table name_table junk junk_lead uat (render pre' c0' comps' post').
+Proof. exact inst_classify_case. Qed.
+Print Assumptions C16_classify_case.
+
+Example C16_ex_case :
+  wf_sname_u junk junk_lead (s2b "~") (s2b "Messages") [s2b "GZ"] [] = true /\ f6_pre (s2b "~") = false /\
+  wf_sname_u junk junk_lead [] (s2b "messages") [s2b "gz"] (s2b ";") = true /\ f6_pre [] = false /\
+  lower_bytes (s2b "Messages") = lower_bytes (s2b "messages") /\
+  map lower_bytes [s2b "GZ"] = map lower_bytes [s2b "gz"].
+Proof. exact ex_case. Qed.
+Print Assumptions C16_ex_case.
+
+(* 3b. rotation: any number of trailing numeric or unrecognised components is ignored *)
+Theorem C16_classify_rotation :
+  forall (uat : bool) (pre c0 : bytes) (comps extra : list bytes) (post : bytes),
+  wf_sname_u junk junk_lead pre c0 (comps ++ extra) post = true -> f6_pre pre = false ->
+  forallb (rot_comp sfx_table) extra = true ->
+  classify_top sfx_table name_table junk junk_lead uat (render pre c0 (comps ++ extra) post)
+  = classify_top sfx_table name_table junk junk_lead uat (render pre c0 comps post).
+Proof. exact inst_classify_rotation. Qed.
+Print Assumptions C16_classify_rotation.
+
+Example C16_ex_rotation :
+  wf_sname_u junk junk_lead [] (s2b "auth") ([s2b "log"] ++ [s2b "1"; s2b "old"; s2b "20230101"]) (s2b "~") = true /\
+  f6_pre [] = false /\
+  forallb (rot_comp sfx_table) [s2b "1"; s2b "old"; s2b "20230101"] = true.
+Proof. exact ex_rotation. Qed.
+Print Assumptions C16_ex_rotation.
+
+(* 3c. compression: a trailing compression word only sets the container: the name
+       classifies as the rest of the name does when started in that container
+       (so of several stacked compression words the left-most one wins) *)
+Theorem C16_classify_compress :
+  forall (uat : bool) (pre c0 : bytes) (comps : list bytes) (c post : bytes) (a' : fta),
+  wf_sname_u junk junk_lead pre c0 (comps ++ [c]) post = true -> f6_pre pre = false ->
+  assoc (lower_bytes c) sfx_table = Some (SCompress a') ->
+  classify_top sfx_table name_table junk junk_lead uat (render pre c0 (comps ++ [c]) post)
+  = spec_scan sfx_table name_table uat a' c0 (rev comps)
+  /\ classify_top sfx_table name_table junk junk_lead uat (render pre c0 (comps ++ [c]) post)
+     = classify sfx_table name_table junk junk_lead (S (List.length (render pre c0 comps post))) uat a'
+         (render pre c0 comps post).
+Proof. exact inst_classify_compress. Qed.
+Print Assumptions C16_classify_compress.
+
+Example C16_ex_compress :
+  wf_sname_u junk junk_lead [] (s2b "wtmp") ([s2b "1"] ++ [s2b "Xz"]) [] = true /\ f6_pre [] = false /\
+  assoc (lower_bytes (s2b "Xz")) sfx_table = Some (SCompress Xz) /\
+  spec_scan sfx_table name_table false Xz (s2b "wtmp") (rev [s2b "1"]) = RFile (Fixed Xz Utmp).
+Proof. exact ex_compress. Qed.
+Print Assumptions C16_ex_compress.
+
+(* 3d. a name without any recognised word is read as a plain text log *)
+Theorem C16_classify_default_text :
+  forall (uat : bool) (pre c0 : bytes) (comps : list bytes) (post : bytes),
+  wf_sname_u junk junk_lead pre c0 comps post = true -> f6_pre pre = false ->
+  (forall c, In c comps -> assoc (lower_bytes c) sfx_table = None) ->
+  assoc (lower_bytes c0) name_table = None ->
+  classify_top sfx_table name_table junk junk_lead uat (render pre c0 comps post) = RFile (Text Normal).
+Proof. exact inst_classify_default_text. Qed.
+Print Assumptions C16_classify_default_text.
+
+Example C16_ex_default_text :
+  wf_sname_u junk junk_lead (s2b "-") (s2b "kern") [s2b "prev"; s2b "2"] [] = true /\ f6_pre (s2b "-") = false /\
+  forallb (fun c => match assoc (lower_bytes c) sfx_table with None => true | Some _ => false end)
+          [s2b "prev"; s2b "2"] = true /\
+  assoc (lower_bytes (s2b "kern")) name_table = None.
+Proof. exact ex_default_text. Qed.
+Print Assumptions C16_ex_default_text.
+
+(* 3e. leading and trailing junk characters are ignored *)
+Theorem C16_classify_junk :
+  forall (uat : bool) (pre c0 : bytes) (comps : list bytes) (post : bytes),
+  wf_sname_u junk junk_lead pre c0 comps post = true -> f6_pre pre = false ->
+  classify_top sfx_table name_table junk junk_lead uat (render pre c0 comps post)
+  = classify_top sfx_table name_table junk junk_lead uat (render [] c0 comps []).
+Proof. exact inst_classify_junk. Qed.
+Print Assumptions C16_classify_junk.
+
+(* 4. Known finding F6 (known_findings.d/C16.json, predicate first_component_all_junk):
+      without [f6_pre pre = false] theorem 2b is false — "-.foo.messages" in a walked
+      directory is Unparsable for the code, Text/Normal for the spec. *)
+Theorem C16_classify_junk_first_component_refuted :
+  exists pre c0 comps post,
+    wf_sname_wide junk junk_lead pre c0 comps post = true /\
+    classify_top sfx_table name_table junk junk_lead false (render pre c0 comps post)
+    <> spec_classify sfx_table name_table false c0 comps.
+Proof. exact classify_junk_first_component_refuted. Qed.
+Print Assumptions C16_classify_junk_first_component_refuted.
+
+Theorem C16_f6_witness_values :
+  f6_pre (s2b "-.") = true /\
+  render (s2b "-.") (s2b "foo") [s2b "messages"] [] = s2b "-.foo.messages" /\
+  classify_top sfx_table name_table junk junk_lead false (s2b "-.foo.messages") = RFile Unparsable /\
+  spec_classify sfx_table name_table false (s2b "foo") [s2b "messages"] = RFile (Text Normal).
+Proof. exact f6_witness_values. Qed.
+Print Assumptions C16_f6_witness_values.
+
+(* 4b. The F6 class completely described: on EVERY structured name whose leading junk is of
+       the class, the code reads the first component as one more suffix and finds no name
+       ([f6_classify], Spec/ClassifySpec.v) ... *)
+Theorem C16_classify_structured_f6 :
+  forall (uat : bool) (pre c0 : bytes) (comps : list bytes) (post : bytes),
+  wf_sname_u junk junk_lead pre c0 comps post = true -> f6_pre pre = true ->
+  classify_top sfx_table name_table junk junk_lead uat (render pre c0 comps post)
+  = f6_classify sfx_table uat c0 comps.
+Proof. exact inst_classify_structured_f6. Qed.
+Print Assumptions C16_classify_structured_f6.
+
+(* ... so in a walked directory every name of the class none of whose components decides the
+   type (numeric, unrecognised, compression words) is skipped as Unparsable, which the
+   property's reading never says: the whole subclass deviates, not only the witness. *)
+Theorem C16_classify_f6_walked_unparsable :
+  forall (pre c0 : bytes) (comps : list bytes) (post : bytes),
+  wf_sname_u junk junk_lead pre c0 comps post = true -> f6_pre pre = true ->
+  forallb (transparent_comp sfx_table) (c0 :: comps) = true ->
+  classify_top sfx_table name_table junk junk_lead false (render pre c0 comps post) = RFile Unparsable
+  /\ spec_classify sfx_table name_table false c0 comps <> RFile Unparsable.
+Proof. exact inst_classify_f6_walked_unparsable. Qed.
+Print Assumptions C16_classify_f6_walked_unparsable.
+
+Example C16_ex_f6 :
+  wf_sname_u junk junk_lead (s2b "~-.") (s2b "Foo") [s2b "messages"; s2b "GZ"; s2b "3"] (s2b ";") = true /\
+  f6_pre (s2b "~-.") = true /\
+  forallb (transparent_comp sfx_table) (s2b "Foo" :: [s2b "messages"; s2b "GZ"; s2b "3"]) = true /\
+  f6_classify sfx_table true (s2b "Foo") [s2b "messages"; s2b "GZ"; s2b "3"] = RFile (Text Gz).
+Proof. exact ex_f6. Qed.
+Print Assumptions C16_ex_f6.
